@@ -39,12 +39,24 @@ class ListProxy(list, ContainerValueMixin):
         if not self.list_field.field:
             raise TypeError("ListProxy requires a parent ListField.field attribute")
 
-        if isinstance(iterable, ListProxy) and iterable.item_field is list_field.field:
+        if self._is_validated(iterable):
             super().__init__(iterable)
         else:
             super().__init__(
                 self._validate(item) for index, item in enumerate(iterable)
             )
+
+    def _is_validated(self, iterable: Any) -> bool:
+        """
+        :returns: whether the items of ``iterable`` can be taken over as they are: they were
+            validated by the same item field and are plain values. Configuration items are mutable
+            and belong to one list of one configuration, so they are always validated and adopted.
+        """
+        return (
+            isinstance(iterable, ListProxy)
+            and iterable.item_field is self.list_field.field
+            and isinstance(self.list_field.field, Field)
+        )
 
     @property
     def item_field(self) -> Union[BaseField, Type[Config]]:
@@ -57,16 +69,20 @@ class ListProxy(list, ContainerValueMixin):
         super().append(self._validate(item))
 
     def extend(self, iterable: Iterable) -> None:
-        if isinstance(iterable, ListProxy) and iterable.item_field is self.item_field:
+        if self._is_validated(iterable):
             super().extend(iterable)
         else:
+            if iterable is self:
+                iterable = list(self)
             super().extend(self._validate(item) for item in iterable)
 
     def insert(self, index: int, item: Any) -> None:
         super().insert(index, self._validate(item))
 
     def copy(self) -> "ListProxy":
-        return ListProxy(self.cfg, self.list_field, self)
+        ret = ListProxy(self.cfg, self.list_field)
+        list.extend(ret, self)
+        return ret
 
     def __iadd__(self, iterable: Iterable) -> "ListProxy":
         self.extend(iterable)
@@ -187,6 +203,14 @@ class ListField(Field):
             raise ValueError("value is required")
 
         if not self.field or isinstance(self.field, AnyField):
+            return value
+
+        if isinstance(value, ListProxy) and value.cfg is cfg and cfg._data.get(self._key) is value:
+            # the list the configuration already holds is validated again (Config.validate()): its
+            # configuration items are checked where they are and stay items of this list
+            for item in value:
+                if isinstance(item, Config):
+                    item.validate()
             return value
 
         proxy = ListProxy(cfg, self, value)
